@@ -566,6 +566,7 @@ type replGenState struct {
 	leader   int // node of the most recent install
 	installs int
 	ready    []bool // generator's own guess: the node's last install probably succeeded
+	lastCmd  [][3]int // last command each node was asked to commit (c,k,p); c=0 = none
 }
 
 func (s *replGenState) all(c byte) string { return strings.Repeat(string(c), s.n) }
@@ -810,8 +811,31 @@ func cmpReplAuth(a, b replAuth) int {
 	return 0
 }
 
+// replay: a node that is no longer the newest leader retries its last command under its own
+// (possibly deposed) authority — late writes of an old leader, exact replays to followers
+func (s *replGenState) replay() bool {
+	g := s.g
+	var cand []int
+	for i := 0; i < s.n; i++ {
+		if s.up[i] && i+1 != s.leader && s.lastCmd[i][0] != 0 && s.last[i] != (replAuth{}) {
+			cand = append(cand, i+1)
+		}
+	}
+	if len(cand) == 0 {
+		return false
+	}
+	node := cand[g.R.Intn(len(cand))]
+	a, c := s.last[node-1], s.lastCmd[node-1]
+	g.Count("commit:deposed-leader-replay")
+	g.Op("commit", "%d %d %d %d %d %d %d %s", node, a.e, a.t, a.f, c[0], c[1], c[2], s.ackSpec(node))
+	return true
+}
+
 func (s *replGenState) commit() {
 	g := s.g
+	if g.R.Chance(7) && s.replay() {
+		return
+	}
 	node := s.leader
 	if node == 0 || !s.ready[node-1] || !s.up[node-1] {
 		var cand []int
@@ -880,6 +904,9 @@ func (s *replGenState) commit() {
 		}
 		g.Count("commit:new-command")
 	}
+	if c != 0 && k != 0 {
+		s.lastCmd[node-1] = [3]int{c, k, p}
+	}
 	g.Op("commit", "%d %d %d %d %d %d %d %s", node, a.e, a.t, a.f, c, k, p, s.ackSpec(node))
 }
 
@@ -921,6 +948,7 @@ func replGenCase(g *Gen, p replGenParams) {
 	}
 	s.last = make([]replAuth, s.n)
 	s.ready = make([]bool, s.n)
+	s.lastCmd = make([][3]int, s.n)
 	nops := g.R.Range(4, p.maxOps)
 	if s.n >= 2 && g.R.Chance(p.pScenario) {
 		// directed family: commits on a bare quorum, the leader goes away, a survivor takes over
